@@ -1,6 +1,7 @@
 """C19 — plot artists pair every value with its own cell."""
 from __future__ import annotations
 
+import random
 from fractions import Fraction
 
 import matplotlib
@@ -21,7 +22,9 @@ RULE = ('datasets of every convention with and without holes / invalid cells, ta
         'make_poly_collection by name and as (possibly transposed) DataArray, with no data, with leftover dimensions, with '
         'array= / clim= / transform= overrides, with styling keywords (edgecolor / edgecolors / cmap / linewidth / alpha ...: what '
         'the documentation and plot_on_figure pass), and through plot_on_figure itself; values of every magnitude (small integers, '
-        'a narrow range on a large offset, tiny, huge, negated, one single value); make_quiver with u, v by name or arrays '
+        'a narrow range on a large offset, tiny, huge, negated, one single value), each variable held in memory in one of many '
+        'ways that keep every value (float64 / float32 / int16..64 where exact, native or the other byte order, C / Fortran / '
+        'strided / reversed / read-only / dask-chunked); make_quiver with u, v by name or arrays '
         '(and without values). Agg backend. '
         'Compared: path vertices, get_array, get_clim of the real PolyCollection; X, Y, U, V of the real Quiver. '
         'Non-trivial: dataset with a cell without polygon before a cell with one, or an override / styling keyword, or the collection taken off a figure; distinct by (recipe, call).')
@@ -69,21 +72,83 @@ def random_value_map(rng):
     return {'const': True}
 
 
+# how the values of one variable are HELD in memory. None of it changes a single value (every form is used only when it
+# holds each value exactly), so none of it may change what a patch or an arrow is given.
+HELD_DTYPES = ['f8', 'f8', 'f4', 'f4', 'i4', 'i2', 'i8']
+HELD_LAYOUTS = [None, None, None, 'F', 'strided', 'reversed', 'readonly', 'dask']
+
+
+def random_held(rng):
+    """dtype (float64, or narrower / integer where every value is exact in it), byte order (native, or the other one:
+    what classic netCDF readers, `numpy.fromfile(dtype='>f4')` and `.astype('>f8')` hand out), memory layout
+    (C, Fortran, a strided or reversed view of a larger buffer, read-only, dask chunks of one element)"""
+    if rng.random() < 0.3:
+        return None
+    return {'dtype': rng.choice(HELD_DTYPES), 'swap': rng.random() < 0.5, 'layout': rng.choice(HELD_LAYOUTS)}
+
+
+def hold(values, held):
+    """`values` (float64, NaN = missing) in the representation `held` asks for; the dtype falls back to float64
+    when a value would not survive it. Returns the array and (for dask) the chunk size."""
+    a = np.ascontiguousarray(np.asarray(values, dtype='f8'))
+    dt = held.get('dtype') or 'f8'
+    if dt != 'f8':
+        if dt[0] in 'iu' and np.isnan(a).any():
+            dt = 'f8'
+        else:
+            with np.errstate(all='ignore'):
+                b = a.astype(dt)
+            if not np.array_equal(b.astype('f8'), a, equal_nan=True):
+                dt = 'f8'
+    a = a.astype(dt)
+    if held.get('swap') and a.dtype.itemsize > 1:
+        a = a.astype(a.dtype.newbyteorder('S'))          # converted by value to the non-native byte order
+    layout = held.get('layout')
+    if layout == 'F':
+        a = np.asfortranarray(a)
+    elif layout == 'strided' and a.ndim:
+        big = np.zeros(a.shape[:-1] + (2 * a.shape[-1] + 1,), dtype=a.dtype)
+        big[..., 1::2] = a
+        a = big[..., 1::2]
+    elif layout == 'reversed' and a.ndim:
+        big = np.ascontiguousarray(a[..., ::-1])
+        a = big[..., ::-1]
+    elif layout == 'readonly':
+        a.setflags(write=False)
+    if not np.array_equal(np.asarray(a, dtype='f8'), np.asarray(values, dtype='f8'), equal_nan=True):
+        raise AssertionError(f'generator: {held} does not hold the values it was given')
+    return a
+
+
 def build(recipe):
-    """G.build, then the value maps of recipe['c19'] applied to the data variables (missing values stay missing)"""
+    """G.build, then the value maps of recipe['c19'] applied to the data variables (missing values stay missing),
+    then each variable put into the representation recipe['c19']['held'] names (same values, held differently)"""
     built = G.build(recipe)
     maps = (recipe.get('c19') or {}).get('values') or {}
+    helds = (recipe.get('c19') or {}).get('held') or {}
+    border = (recipe.get('vary') or {}).get('byteorder')
     ds = built.ds
-    for name, m in maps.items():
-        if m is None or name not in ds:
+    for name in sorted(set(maps) | set(helds)):
+        m, h = maps.get(name), helds.get(name)
+        if (m is None and h is None) or name not in ds:
             continue
         da = ds[name]
-        v = np.asarray(da.values, dtype='f8')
-        if m.get('const'):
-            new = np.where(np.isnan(v), np.nan, float(built.vars[name].base))
+        if m is not None:
+            v = np.asarray(da.values, dtype='f8')
+            if m.get('const'):
+                new = np.where(np.isnan(v), np.nan, float(built.vars[name].base))
+            else:
+                new = float(m['off']) + (-1.0 if m['neg'] else 1.0) * v * (2.0 ** m['exp'])
+            if border and h is None:
+                new = new.astype(new.dtype.newbyteorder(border))
         else:
-            new = float(m['off']) + (-1.0 if m['neg'] else 1.0) * v * (2.0 ** m['exp'])
-        ds[name] = xr.DataArray(new, dims=da.dims, attrs=da.attrs)
+            new = da.values
+        if h is not None:
+            new = hold(new, h)
+        nda = xr.DataArray(new, dims=da.dims, attrs=da.attrs)
+        if h is not None and h.get('layout') == 'dask':
+            nda = nda.chunk({d: 1 for d in da.dims})
+        ds[name] = nda
     built.ds = ds
     return built
 
@@ -111,7 +176,8 @@ def examine(ctx, recipe, items) -> None:
     def oracle(pc, label, name, flat, clim_given, single_value_excused=False):
         """the property, stated on the real artist: one patch per cell with geometry, in linear order, with that
         cell's outline and value; default colour limits = (min, max) of the plotted values"""
-        d = {**desc, 'var': name, 'call': label}
+        d = {**desc, 'var': name, 'call': label, 'held': held_as(name)}
+        label = f'{label} [{name} held as {held_as(name)}]'
         ctx.evaluated()
         paths = [[(Fraction(float(x)), Fraction(float(y))) for x, y in p.vertices] for p in pc.get_paths()]
         got = pc.get_array()
@@ -138,6 +204,10 @@ def examine(ctx, recipe, items) -> None:
             cl = pc.get_clim()
             if cl is None or (cl[0], cl[1]) != (lo, hi):
                 ctx.oracle_fail('clim-not-plotted-range', d, f'{label}: colour limits {cl}, the plotted values span {(float(lo), float(hi))}')
+
+    def held_as(name):
+        h = ((recipe.get('c19') or {}).get('held') or {}).get(name) or {}
+        return ds[name].dtype.str + (('/' + h['layout']) if h.get('layout') else '')
 
     def run_collection(label, data, model_vals, maker=None, **kw):
         arr = '1' if 'array' in kw else '0'
@@ -194,6 +264,7 @@ def examine(ctx, recipe, items) -> None:
     # two plain variables and, always, the one with a leftover dimension
     for name in face_vars[:2] + [n for n in face_vars[2:] if any(d not in gd for d in ds[n].dims)][:1]:
         da = ds[name]
+        ctx.count('held:' + ('native-' if da.dtype.isnative else 'swapped-') + held_as(name)[1:])
         extra = [d for d in da.dims if d not in gd]
         if extra:
             run_collection('extra-dims', name, 'extra')
@@ -356,7 +427,7 @@ def history_case(ctx, recipe) -> None:
     ctx.nontrivial((str(recipe), 'history'))
 
 
-def make_recipe(ctx, k):
+def make_recipe(ctx, k, held_rng=None):
     rng = ctx.rng
     conv = G.CONVS[k % len(G.CONVS)]
     kw = {'max_w': 3, 'max_h': 2, 'coords_as': 'vars', 'face_coords': rng.choice([None, 'vars'])} if conv == 'ugrid' else {'max_n': 4}
@@ -385,13 +456,18 @@ def make_recipe(ctx, k):
     ncells = len(probe.polys)
     recipe['sizes_extra'] = {'time': ncells if (k % 3 == 1 and 2 <= ncells <= 40) else 2}
     recipe['c19'] = {'style': dict(rng.choice(STYLES)), 'values': {v['name']: random_value_map(rng) for v in vars_}}
+    if held_rng is not None:
+        recipe['c19']['held'] = {v['name']: random_held(held_rng) for v in vars_}
     return recipe
 
 
 def run(ctx) -> None:
     items: list = []
+    # (the representations are drawn from a stream of their own, forked off ctx.rng's starting state without consuming
+    # it: the recipes themselves stay the ones this check has always generated for a given VERIF_SEED)
+    held_rng = random.Random('C19 held ' + ','.join(str(x) for x in ctx.rng.getstate()[1][:8]))
     for k in range(ctx.budget(40, 400)):
-        recipe = make_recipe(ctx, k)
+        recipe = make_recipe(ctx, k, held_rng)
         ctx.guarded(lambda: examine(ctx, recipe, items), {'recipe': recipe})
         if k % 5 == 4:
             ctx.guarded(lambda: history_case(ctx, recipe), {'recipe': recipe, 'history': True})
